@@ -11,9 +11,22 @@ if TYPE_CHECKING:
 
 class GtfIterator(SequenceIterator):
     """ GTF Iterator """
+    modes = 't'
+
     def __init__(self, source:Union[IO, str], mode='t'):
         """ Constructor """
-        super().__init__(source=source, mode=mode, fmt='GTF')
+        try:
+            super().__init__(source=source, mode=mode, fmt='GTF')
+        except TypeError:
+            # Biopython >= 1.85 no longer takes `mode`
+            super().__init__(source=source, fmt='GTF')
+        self._records = None
+
+    def __next__(self) -> GTFSeqFeature:
+        """ Return the next GTF record. """
+        if self._records is None:
+            self._records = self.parse(self.stream)
+        return next(self._records)
 
     def parse(self, handle:IO[str]) -> Iterable[GTFSeqFeature]:
         """ parse
